@@ -372,6 +372,7 @@ theorem decr_ack (h : LInv n l) (hs : l.step .ackArrive = some l') : Lt5 (mu n l
   obtain ⟨m1, m2, m3⟩ := marks n h
   rw [lt5_iff]
   cases ack_cases h.s.inv g.ok hst with
+  | stale hlt _ _ => exact absurd hlt (Nat.not_lt.mpr g.ge)
   | new T S hne e1 hT hsub e2 =>
     left
     subst e1
